@@ -157,6 +157,19 @@ fn run_case(line: &str, known_env: &mut BTreeSet<Vec<u8>>) -> (String, String) {
                     Err(p) => Ok(format!("PANIC\t{}", to_hex(panic_text(&p).as_bytes()))),
                 }
             }
+            // completion: the vector is given with the completion revision set on Args
+            #[cfg(feature = "autocomplete")]
+            "comp" => {
+                let rev: usize = mode.get(1).and_then(|r| r.atom().ok()).and_then(|r| r.parse().ok()).unwrap_or(0);
+                let argv2 = argv.clone();
+                let r = std::panic::catch_unwind(std::panic::AssertUnwindSafe(|| {
+                    opts.run_inner(mk_args(&argv2, name).set_comp(rev))
+                }));
+                match r {
+                    Ok(r) => Ok(show(r)),
+                    Err(p) => Ok(format!("PANIC\t{}", to_hex(panic_text(&p).as_bytes()))),
+                }
+            }
             "invariant" => {
                 let r = std::panic::catch_unwind(std::panic::AssertUnwindSafe(|| opts.check_invariants(false)));
                 Ok(format!("INVARIANT\t{}", r.is_ok()))
